@@ -325,6 +325,6 @@ def subchecks(tier):
     q = tier == "quick"
     return [
         Sub("history", history(8 if q else 10), test_history,
-            64 if q else 1500, generic=GENERIC, shards=8 if q else 16,
+            96 if q else 1500, generic=GENERIC, shards=8 if q else 16,
             max_rounds=6, shrink_quick=False),
     ]
